@@ -2,14 +2,14 @@ SPECIFICATION GSpec
 CONSTANTS
   Sess = {"s1"}
   Reqs = {"r1"}
-  Gets = {"g1","g2","g3"}
+  Gets = {"g1","g2"}
   Prime <- PrimeAll
   Store = TRUE
   Json = FALSE
   Stateless = FALSE
   MaxEmit = 2
   MaxSreq = 0
-  MaxSa = 1
+  MaxSa = 0
   Gates = TRUE
 VIEW MCView
 INVARIANTS ResumeExact IdsDense IdStable StoreBeforeDeliver CompleteAtEnd CompleteAtRest FinalObtainable RefusedOnlyOnConflict ResponseOnOwnExchange NestedRouting NoCrossSession RoutingEntryLifecycle LockDiscipline
